@@ -35,9 +35,10 @@ class Heap:
         return h
 
 
-ALLOC = {"my_malloc": "m", "malloc": "m", "my_calloc": "c", "calloc": "c"}
-REALLOC = ("my_realloc", "realloc")
-FREE = ("my_free", "free")
+# the C library's allocator is the model; the project's wrappers (my_malloc, ...) are interpreted from their bodies
+ALLOC = {"malloc": "m", "calloc": "c"}
+REALLOC = ("realloc",)
+FREE = ("free",)
 
 
 class MemInterp(B.Interp):
@@ -159,8 +160,7 @@ class MemInterp(B.Interp):
                     if not all(isinstance(x, B.BV) and x.is_const() for x in sz):
                         raise BrokenAnalysis("%s: allocation size is not a constant on this trace (%s)" % (f.name, self.where(f, n)))
                     size = sz[0].value() if ALLOC[name] == "m" else sz[0].value() * sz[1].value()
-                    if size <= 0 and name.startswith("my_"):
-                        raise MemFault("%s allocates %d bytes: %s aborts on a NULL result (%s)" % (f.name, size, name, self.where(f, n)))
+                    # malloc(0)/calloc(0) return a unique pointer to no bytes (glibc); any access through it is out of bounds
                     k = h.next
                     h.next += 1
                     h.allocs[k] = [size, True, ALLOC[name] == "c"]
@@ -171,8 +171,14 @@ class MemInterp(B.Interp):
                     if not sz.is_const():
                         raise BrokenAnalysis("%s: realloc size is not a constant on this trace (%s)" % (f.name, self.where(f, n)))
                     size = sz.value()
-                    if size <= 0:
-                        raise MemFault("%s reallocates to %d bytes (%s)" % (f.name, size, self.where(f, n)))
+                    if size == 0:
+                        # realloc(p, 0) frees p and returns NULL (glibc): the wrapper's NULL check then fires
+                        if isinstance(p, B.Ptr) and p.base is not None and isinstance(p.base, tuple) and p.base[0] == "A":
+                            old = h.allocs.get(p.base[1])
+                            if old is not None:
+                                old[1] = False
+                        yield s, B.Ptr(None, 0)
+                        continue
                     k = h.next
                     h.next += 1
                     h.allocs[k] = [size, True, False]
